@@ -50,6 +50,15 @@ def make_cases(rng, tier, n):
             stats["missing_index"] = stats.get("missing_index", 0) + 1
             cases.append(c)
             continue
+        if not pipe and i % 12 == 9:
+            # temporary files another program (or a killed dud) left inside .dud/: reading commands leave them alone
+            c["ops"] = [("commit", rng.choice("lc"), []), ("dudtmp", b"index.tmp"), ("dudtmp", b"config.yaml.tmp"), ("dudtmp", b"notes.tmp"),
+                        ("status", []), ("graph", []), ("status", [names[0]]), ("checkout", rng.choice("lc"), False, []), ("status", [])]
+            c["tail_ops"] = []
+            c["hist_info"] = dict(commits=1)
+            stats["dud_dir_leftovers"] = stats.get("dud_dir_leftovers", 0) + 1
+            cases.append(c)
+            continue
         if not pipe and i % 12 == 2:
             # a cache written by an early dud (manifests in the untagged schema): reading commands read it, none rewrites it
             arts_ = s1eval.artifacts(c)
